@@ -964,7 +964,8 @@ func (m *LinearBlockMetadata) populateAllocationRequestLower(
 	// In a ring buffer (or empty if we're out of space), we'll attempt to allocate at the end of the second vector
 	if m.secondVectorMode == SecondVectorModeEmpty || m.secondVectorMode == SecondVectorModeRingBuffer {
 		if len(firstVector) == 0 {
-			panic("attempting to allocate into the second vector, but the first is not empty")
+			// Nothing to wrap around: the request simply does not fit into the empty block
+			return false
 		}
 
 		var resultBaseOffset int
